@@ -144,7 +144,7 @@ impl Prop for C20 {
         Ok(())
     }
     fn rule(&self) -> String {
-        "generated (site |lat|<=45, base GMT within 2 h of lon/15, 9 methods, date mixture, step kind GMT-only or meridian (15 deg + 1 h), step +-1 h (80 %) or 2..6 h); the step's sign/magnitude is adjusted by construction so shifted values stay in range. Non-trivial = all 7 entries valid and none skipped at the civil-day seam; distinct by hash of the case".into()
+        "generated (site |lat|<=45, base GMT within 2 h of lon/15, 9 methods, date mixture, step kind GMT-only or meridian (15 deg + 1 h), step +-1 h (80 %) or 2..6 h); the step's sign/magnitude is adjusted by construction so shifted values stay in range. One case in 9 has its local midnight within 12 minutes of the RA wrap; every case is preceded by a priming call with a sibling input. Non-trivial = all 7 entries valid and none skipped at the civil-day seam; distinct by hash of the case".into()
     }
     fn assumptions(&self) -> Vec<String> {
         vec![
